@@ -62,11 +62,9 @@ class PersistTwin(Monitor):
         return {"op": move[0], "task_has_items": task in self._items if task else None}
 
     def on_step(self, pre, move, sim, res, post, ctx):
-        if move[0] in ("start", "crash") or sim.c._workflow_state is None:
+        if move[0] == "crash":
             return []
         twin = ctx.fresh_pre()
-        if twin.c._workflow_state is None:
-            return []
         try:
             twin.c = conducting.WorkflowConductor.deserialize(twin.c.serialize())
         except Exception as e:
